@@ -178,8 +178,58 @@ func applySymbol(t *Tracker, sym string, seq int) {
 	case "D":
 		t.BlockUser(userOther)
 	default:
+		if title, ok := renameTitles[sym]; ok {
+			t.ChangeTitle(first, actor, title)
+			return
+		}
 		panic("unknown symbol " + sym)
 	}
+}
+
+// Hostile NEW titles of title-change notes ("changed title from **A** to **B**"): symbol -> B.
+var renameTitles = map[string]string{
+	"r:ctl":       "\x00\x01\x1b",
+	"r:spaces":    "   ",
+	"r:tab":       "\t",
+	"r:ctlaround": "\x01ok\x02",
+	"r:padded":    "  padded  ",
+	"r:empty":     "",
+	"r:delim":     "a ** to ** b",
+	"r:long":      strings.Repeat("long title é世 ", 400),
+	"r:usep":      "\u2028line one\u2028line two\u2029\u0085",
+}
+
+var renameSymbols = []string{"r:ctl", "r:spaces", "r:tab", "r:ctlaround", "r:padded", "r:empty", "r:delim", "r:long", "r:usep"}
+
+// RenameHistories: every hostile rename as the only rename, as the first of two and as the last of
+// two (the other one being a plain rename), on an issue without and with other events.
+func RenameHistories() [][]string {
+	var out [][]string
+	for _, r := range renameSymbols {
+		for _, seq := range [][]string{{r}, {r, "t"}, {"t", r}} {
+			bare := append([]string{"N"}, seq...)
+			out = append(out, bare)
+			busy := append(append([]string{"N", "c"}, seq...), "la")
+			out = append(out, busy)
+		}
+	}
+	return out
+}
+
+// SingleCuts returns h uncut, cut once at every position, and cut everywhere.
+func SingleCuts(h []string) [][][]string {
+	out := [][][]string{{h}}
+	for i := 1; i < len(h); i++ {
+		out = append(out, [][]string{h[:i], h[i:]})
+	}
+	if len(h) > 2 {
+		var all [][]string
+		for i := range h {
+			all = append(all, h[i:i+1])
+		}
+		out = append(out, all)
+	}
+	return out
 }
 
 // Case is one element of the enumerated space (plus the selection of faults to run on it).
@@ -192,6 +242,8 @@ type Case struct {
 	Sel int `json:"sel"`
 	// BaseOracles: evaluate the fault-free oracles (idempotence, incrementality, validity).
 	BaseOracles bool `json:"base"`
+	// CheckCache: after every import also validate every bug through a freshly opened cache.
+	CheckCache bool `json:"cache,omitempty"`
 }
 
 func (c Case) History() []string {
